@@ -478,7 +478,14 @@ func C07(r *eng.Run) {
 	p.EOFWithData = r.T.Chance(sim.LFault, 1, 6)
 	p.ZeroReads = r.T.Chance(sim.LFault, 1, 8)
 	cfg.ZeroBuf = cfg.App == AppReader && r.T.Chance(sim.LFault, 1, 8)
-	if cfg.App == AppReader && !cfg.OnContRead && r.T.Bool(sim.LCfg) {
+	cfg.SkipEmpty = cfg.App == AppReader && r.T.Chance(sim.LCfg, 1, 3) // empty unfragmented messages are not read at all
+	if cfg.App == AppReader && cfg.Bufio == 0 && !cfg.OnContRead && r.T.Chance(sim.LFault, 1, 6) {
+		// One temporary read error inside the payload of a data frame; the
+		// application reads every unit to its end and retries.
+		cfg.Retry, cfg.NoDiscard = true, true
+		p.Transient = TransientIn(r, s.Frames)
+	}
+	if cfg.App == AppReader && !cfg.OnContRead && !cfg.Retry && r.T.Bool(sim.LCfg) {
 		c07Tolerant(r, cfg, s, p)
 		return
 	}
